@@ -1647,7 +1647,7 @@ def main():
             if not ps: ps = ['void']
             protos.append('%s %s(%s);' % (gen(f.ret), em.gname(n), ', '.join(ps)))
             if f.is_decl and n not in opts.modelled and not n.startswith(PASSTHRU) and not n.startswith('nondet_') and n not in LIBC_BUILTIN and n not in ('memcpy', 'memmove') and any(re.search(rx, n) for rx in a.assert_external):
-                named = ', '.join('%s a%d' % (p_, k_) for k_, p_ in enumerate(ps)) if ps != ['void'] else 'void'
+                named = ', '.join(('...' if p_ == '...' else '%s a%d' % (p_, k_)) for k_, p_ in enumerate(ps)) if ps != ['void'] else 'void'
                 rt_ = gen(f.ret)
                 retst = '' if rt_ == 'void' else (' return (%s)0;' % rt_ if (rt_.endswith('*') or rt_.startswith('uint') or rt_ == '_Bool') else ' { %s z_ = {0}; return z_; }' % rt_)
                 msg = re.sub(r'[^A-Za-z0-9_]', '_', n)[:80]
